@@ -303,6 +303,8 @@ class FileStoreRequestBase:
             the third value is the length of the full TLV packet
         """
         value_idx = 0
+        if len(raw_bytes) < 1:
+            raise BytesTooShortError(1, len(raw_bytes))
         action_code_as_int = (raw_bytes[value_idx] >> 4) & 0x0F
         try:
             action_code = FilestoreActionCode(action_code_as_int)
@@ -385,6 +387,8 @@ class FileStoreRequestTlv(FileStoreRequestBase, AbstractTlvBase):
 
     @classmethod
     def unpack(cls, data: bytes) -> FileStoreRequestTlv:
+        if len(data) < 2:
+            raise BytesTooShortError(2, len(data))
         cls._check_raw_tlv_field(data[0], FileStoreRequestTlv.TLV_TYPE)
         filestore_req = cls.__empty()
         cls._set_fields(filestore_req, data[2:])
@@ -467,6 +471,8 @@ class FileStoreResponseTlv(FileStoreRequestBase, AbstractTlvBase):
 
     @classmethod
     def unpack(cls, data: bytes) -> FileStoreResponseTlv:
+        if len(data) < 2:
+            raise BytesTooShortError(2, len(data))
         cls._check_raw_tlv_field(data[0], FileStoreResponseTlv.TLV_TYPE)
         filestore_reply = cls.__empty()
         cls._set_fields(filestore_reply, data[2:])
